@@ -222,7 +222,7 @@ def analyse(ctx):
         if "http::Method" in ib["locals"][i]["s"]:
             METHOD_PARAMS.add(i)
     outs = ctx.px(inner, inline=inl, key="builder-takers")
-    ctx.assume("http::Method::HEAD is Method(Inner::Head) and Method equality is structural: paths on which `== Method::HEAD` "
+    ctx.assume("http::Method::GET / HEAD are Method(Inner::Get) / Method(Inner::Head) and Method equality is structural: paths on which `== Method::HEAD` "
                "and the `Inner::Head` discriminant test disagree are infeasible and dropped")
     rows = []
     for o in outs:
@@ -239,16 +239,32 @@ def analyse(ctx):
         r.variant = v[3] if is_agg(v) else None
         r.atoms, r.other = atoms_of(ctx, o)
         mi = r.atoms.get("method.inner")
-        is_head_inner = (mi == "Head") if mi is not None and not isinstance(mi, tuple) else (False if mi is not None else None)
-        if is_head_inner is not None:
-            if r.atoms.get("method==HEAD") is not None and bool(r.atoms["method==HEAD"]) != is_head_inner:
-                continue
-            if r.atoms.get("method==GET") == 1 and is_head_inner:
-                continue
-        if r.atoms.get("method==GET") == 1 and r.atoms.get("method==HEAD") == 1:
-            continue
-        r.method = "GET" if r.atoms.get("method==GET") == 1 else ("HEAD" if r.atoms.get("method==HEAD") == 1 or is_head_inner else
-                                                                     ("OTHER" if r.atoms.get("method==GET") == 0 and r.atoms.get("method==HEAD") == 0 else "?"))
+        # what the path knows about the method: from `== Method::GET/HEAD` tests and from the discriminant of Method's inner enum
+        # (a `match *method { Method::GET | Method::HEAD => .. }` is lowered to the latter)
+        inner_is = mi if isinstance(mi, str) else None
+        inner_not = set(mi[1]) if isinstance(mi, tuple) and mi and mi[0] in ("not", "notin") and isinstance(mi[1], (tuple, list, set)) else \
+            ({mi[1]} if isinstance(mi, tuple) and mi and mi[0] in ("not", "notin") else set())
+        facts_m = {}
+        for name, variant in (("GET", "Get"), ("HEAD", "Head")):
+            eqv = r.atoms.get("method==" + name)
+            vals = set()
+            if eqv is not None:
+                vals.add(bool(eqv))
+            if inner_is is not None:
+                vals.add(inner_is == variant)
+            elif variant in inner_not:
+                vals.add(False)
+            facts_m[name] = vals
+        if any(len(v) > 1 for v in facts_m.values()) or (facts_m["GET"] == {True} and facts_m["HEAD"] == {True}):
+            continue    # contradictory under the stated assumption: infeasible
+        if facts_m["GET"] == {True}:
+            r.method = "GET"
+        elif facts_m["HEAD"] == {True}:
+            r.method = "HEAD"
+        elif facts_m["GET"] == {False} and facts_m["HEAD"] == {False}:
+            r.method = "OTHER"
+        else:
+            r.method = "?"
         r.multipart = None
         resp = None
         if r.variant == "Simple":
